@@ -62,6 +62,20 @@ fn usage() -> ! {
     std::process::exit(3);
 }
 
+pub static LOG_RECORDS: std::sync::atomic::AtomicU64 = std::sync::atomic::AtomicU64::new(0);
+struct CountingLogger;
+impl log::Log for CountingLogger {
+    fn enabled(&self, _: &log::Metadata) -> bool {
+        true
+    }
+    fn log(&self, r: &log::Record) {
+        // format the record (as a real sink would) and drop it
+        let _ = std::hint::black_box(format!("{}", r.args()).len());
+        LOG_RECORDS.fetch_add(1, std::sync::atomic::Ordering::Relaxed);
+    }
+    fn flush(&self) {}
+}
+
 fn main() {
     let argv: Vec<String> = std::env::args().collect();
     if argv.len() < 2 {
@@ -96,11 +110,27 @@ fn main() {
         use yuvxyb_math::verif as vh;
         vh::set_mode(if ctx.arg("hook-mode") == Some("record") { vh::Mode::Record } else { vh::Mode::Trap });
     }
+    // results must not depend on whether the host application listens to the library's log output:
+    // `--log-level trace` installs a logger that accepts (and counts) everything
+    if let Some(level) = ctx.arg("log-level") {
+        static LOGGER: CountingLogger = CountingLogger;
+        let _ = log::set_logger(&LOGGER);
+        log::set_max_level(match level {
+            "trace" => log::LevelFilter::Trace,
+            "debug" => log::LevelFilter::Debug,
+            "info" => log::LevelFilter::Info,
+            "warn" => log::LevelFilter::Warn,
+            _ => log::LevelFilter::Error,
+        });
+    }
     if ctx.flag("property-budgets") {
         mon_transfer::PROPERTY_BUDGETS.store(true, std::sync::atomic::Ordering::Relaxed);
     }
     ev::init();
     ev::install_panic_hook();
+    if let Some(level) = ctx.arg("log-level") {
+        ev::observe("log_level_of_installed_logger", level);
+    }
     let t0 = std::time::Instant::now();
 
     let known = match monitor.as_str() {
@@ -137,6 +167,9 @@ fn main() {
         .take(16)
         .map(|v| J::obj().set("site", yuvxyb_math::verif::SITE_NAMES[v.site]).set("a", v.a).set("b", v.b))
         .collect();
+    if ctx.arg("log-level").is_some() {
+        ev::observe("log_records_received_by_installed_logger", LOG_RECORDS.load(std::sync::atomic::Ordering::Relaxed));
+    }
     let out = ev::with(|r| {
         let mut o = J::obj()
             .set("monitor", ctx.monitor.as_str())
@@ -146,6 +179,7 @@ fn main() {
             .set("fastmath_feature", cfg!(feature = "fastmath"))
             .set("fma_target_feature", cfg!(target_feature = "fma"))
             .set("debug_assertions", cfg!(debug_assertions))
+            .set("log_records_received", LOG_RECORDS.load(std::sync::atomic::Ordering::Relaxed))
             .set("evaluations", r.evaluations)
             .set("nontrivial_direct", r.nontrivial_direct)
             .set("rule", r.rule.as_str())
